@@ -50,14 +50,14 @@ class C01(Scenario):
         # named right-hand side
         with ctx.impl("get_right_hand_side"):
             r = m.get_right_hand_side(dict(state), T)
-        ctx.true("get_right_hand_side index", list(r.index) == names)
+        ctx.true("get_right_hand_side names", set(r.index) == set(names))
         for v in names:
             ctx.eq(f"get_right_hand_side[{v}]", r[v], dx[v])
 
         # fluxes
         with ctx.impl("get_fluxes"):
             fl = m.get_fluxes(dict(state), T)
-        ctx.true("get_fluxes index", list(fl.index) == fluxn, info=f"{list(fl.index)} vs {fluxn}")
+        ctx.true("get_fluxes names", set(fl.index) == set(fluxn) and len(fl.index) == len(fluxn), info=f"{list(fl.index)} vs {fluxn}")
         for f in fluxn:
             ctx.eq(f"get_fluxes[{f}]", fl[f], env[f])
 
@@ -113,13 +113,13 @@ class C01(Scenario):
         ctx.true("get_args_time_course columns", set(atc.columns) == expected - {"time"})
         with ctx.impl("get_fluxes_time_course"):
             ftc = m.get_fluxes_time_course(frame)
-        ctx.true("get_fluxes_time_course columns", list(ftc.columns) == fluxn)
+        ctx.true("get_fluxes_time_course columns", set(ftc.columns) == set(fluxn))
         for f in fluxn:
             ctx.eq(f"get_fluxes_time_course[0,{f}]", ftc[f].iloc[0], env[f])
             ctx.eq(f"get_fluxes_time_course[1,{f}]", ftc[f].iloc[1], env2[f])
         with ctx.impl("get_right_hand_side_time_course"):
             rtc = m.get_right_hand_side_time_course(atc)
-        ctx.true("get_right_hand_side_time_course columns", list(rtc.columns) == names)
+        ctx.true("get_right_hand_side_time_course columns", set(rtc.columns) == set(names))
         for v in names:
             ctx.eq(f"get_right_hand_side_time_course[0,{v}]", rtc[v].iloc[0], dx[v])
             ctx.eq(f"get_right_hand_side_time_course[1,{v}]", rtc[v].iloc[1], dx2[v])
